@@ -175,7 +175,7 @@ func (d *duplexHTTPCall) CloseRead() error {
 	if d.response == nil {
 		return nil
 	}
-	if err := discard(d.response.Body); err != nil {
+	if _, err := discard(d.response.Body); err != nil {
 		return wrapIfRSTError(wrapIfContextDone(d.ctx, err))
 	}
 	return wrapIfRSTError(wrapIfContextDone(d.ctx, d.response.Body.Close()))
